@@ -234,7 +234,7 @@ Proof.
   intros I. unfold to_wait.
   assert (I1 : Inv (set_obj s o (with_timer (obj s o) t))).
   { apply inv_set_obj; auto. intros Ho. unfold obj_ok; simpl. apply (obj_ok_obj s o I Ho). }
-  destruct (existsb _ _); auto. eapply inv_same5; [|exact I1]. repeat split.
+  destruct (existsb _ _); eapply inv_same5; try exact I1; repeat split.
 Qed.
 
 Lemma target_of_rec f t : rec_target (mklr (f_name f) (f_renamed f) (f_hash f) (f_size f) t) = target_of f.
@@ -245,7 +245,7 @@ Proof.
   intros I. unfold finalize. destruct (nth_error (heap s) o) as [f0|] eqn:N; auto.
   assert (Ho : (o < length (heap s))%nat) by (apply nth_error_Some; congruence).
   set (n := f_name f0). set (s0 := lock n s). assert (I0 : Inv s0) by (apply inv_lock; auto).
-  destruct (negb (cache_state s0 n =? ST_VALIDATED)); [apply inv_unlock; auto|].
+  destruct (negb (cache_state s0 n =? ST_VALIDATED) || negb (name_eqb (cache_hash s0 n) (f_hash f0))); [apply inv_unlock; auto|].
   set (s1 := set_obj s0 o (with_timer (obj s0 o) false)).
   assert (I1 : Inv s1).
   { apply inv_set_obj; auto. intros _. unfold obj_ok; simpl. apply (obj_ok_obj s0 o I0). exact Ho. }
@@ -615,7 +615,8 @@ Theorem finalize_logs_first : forall s now o,
      rlog (finalize s now o) = rlog s ++ [mklr (f_name f) (f_renamed f) (f_hash f) (f_size f) now]).
 Proof.
   intros s now o. unfold finalize. destruct (nth_error (heap s) o) as [f0|] eqn:N; [|left; auto].
-  destruct (negb (cache_state (lock (f_name f0) s) (f_name f0) =? ST_VALIDATED)); [left; auto|].
+  destruct (negb (cache_state (lock (f_name f0) s) (f_name f0) =? ST_VALIDATED) ||
+            negb (name_eqb (cache_hash (lock (f_name f0) s) (f_name f0)) (f_hash f0))); [left; auto|].
   right. exists f0. split; auto.
   assert (Ho : (o < length (heap s))%nat) by (apply nth_error_Some; congruence).
   assert (G : forall (l : list ffile) i v d, (i < length l)%nat -> nth i (list_set l i v) d = v)
@@ -720,7 +721,7 @@ Qed.
 End Local.
 
 (* ------------------------------------------------------------------ *)
-(* the stale waiter: a witness history outside D                         *)
+(* the stale waiter: a history outside D (two versions of one name)       *)
 Definition toyH (b : list Z) : name := b.   (* any injective "hash" exhibits it *)
 Definition stale_px (c : name) : part_req := mkpr [120] [] [113] 2 c 0 2 0.
 Definition stale_ops : list sop :=
@@ -732,19 +733,21 @@ Definition stale_end : stage := srun toyH init_stage stale_ops.
 
 Lemma stale_finals : finals stale_end = [([113], [9]); ([120], [2; 2])].
 Proof. vm_compute. reflexivity. Qed.
-Lemma stale_log : rlog stale_end = [mklr [113] [] [9] 1 1000; mklr [120] [] [1; 1] 2 1000].
+Lemma stale_log : rlog stale_end = [mklr [113] [] [9] 1 1000; mklr [120] [] [2; 2] 2 1000].
 Proof. vm_compute. reflexivity. Qed.
 
-Theorem stale_waiter_refuted :
-  exists t body,
-    In (t, body) (finals stale_end) /\
-    (exists r, In r (rlog stale_end) /\ rec_target r = t) /\
-    (forall r', In r' (rlog stale_end) -> rec_target r' = t -> toyH body <> l_hash r').
+(* the history that used to deliver version 2's bytes under version 1's hash
+   (a waiter of the older version stayed parked and was released onto the newer
+   staged file): after the fix the newer object takes the waiter's place and the
+   file is delivered and logged with its own hash *)
+Theorem stale_waiter_repaired :
+  forall t body, In (t, body) (finals stale_end) ->
+    exists r, In r (rlog stale_end) /\ rec_target r = t /\ toyH body = l_hash r.
 Proof.
-  exists [120], [2; 2]. rewrite stale_finals, stale_log.
-  split; [right; left; reflexivity|]. split.
-  - exists (mklr [120] [] [1; 1] 2 1000). split; [right; left; reflexivity | reflexivity].
-  - intros r' [<-|[<-|[]]] Ht; [discriminate Ht | discriminate].
+  intros t body Hin. rewrite stale_finals in Hin. rewrite stale_log.
+  destruct Hin as [E|[E|[]]]; inversion E; subst.
+  - exists (mklr [113] [] [9] 1 1000). split; [left; reflexivity | split; reflexivity].
+  - exists (mklr [120] [] [2; 2] 2 1000). split; [right; left; reflexivity | split; reflexivity].
 Qed.
 
 (* ------------------------------------------------------------------ *)
